@@ -64,6 +64,10 @@ func (u *User) init() error {
 		}
 	}
 
+	// init also runs when an existing user is updated (CopyFrom): the matchers
+	// must denote the rights just saved, not accumulate every right ever held.
+	u.pushMatchers = nil
+	u.pullMatchers = nil
 	initMatchers(u.PushAccess, &u.pushMatchers)
 	initMatchers(u.PullAccess, &u.pullMatchers)
 	return nil
